@@ -15,6 +15,7 @@ import (
 	"verif/explore"
 	"verif/h/lin"
 	"verif/ref"
+	"verif/par"
 	"verif/report"
 	"verif/vrt"
 )
@@ -533,6 +534,25 @@ func run(r *report.Report) {
 		for _, s := range cr.Samples {
 			r.Sample(map[string]string{"part": "closure-" + un, "operations": s})
 		}
+	}
+	// every history up to a fixed length without merging states: what the closure's state key cannot see (a pointer
+	// cached by one particular history) cannot hide here
+	for _, un := range []string{"filters", "names"} {
+		depth := 3
+		if r.Tier == "thorough" {
+			depth = 4
+		}
+		c := closure(un)
+		sr := c.Sequences(depth, r.Deadline(), func(gen func(emit func([]int)), work func([]int) []explore.ClauseFail, collect func([]int, []explore.ClauseFail), deadline int64) bool {
+			return par.Run(gen, work, collect, deadline)
+		})
+		for i := range sr.Viol {
+			sr.Viol[i].Params = un + "\x1f" + sr.Viol[i].Params
+		}
+		r.AddSweep(report.Part{Name: "histories-" + un, Mode: "sweep", Bound: fmt.Sprintf("all operation sequences of length 1..%d over %d operations (no state merging)", depth, len(c.Ops)),
+			Evaluations: int64(sr.Transitions), Nontrivial: int64(sr.Transitions),
+			Rule: "every sequence on a fresh tree, the same comparisons as in the closure after the last operation (queries run after every step); non-trivial = sequences",
+			Exhaustive: sr.Complete, Wall: sr.Wall, Violations: sr.NViol}, sr.Viol)
 	}
 	r.RacePass()
 	bound := 4
